@@ -87,7 +87,11 @@ func (ps *PathSum) call(s *psState, f *psFrame, x *ssa.Call) ([]*psOutcome, bool
 				return nil, false
 			}
 			if ev, ok := nodeMutators[name]; ok {
-				ps.emit(s, f, pos, ev, append([]string{recv}, args...)...)
+				if ev == "NodeQueue" || ev == "NodeLink" {
+					ps.emit(s, f, pos, ev, append([]string{recv, name}, args...)...)
+				} else {
+					ps.emit(s, f, pos, ev, append([]string{recv}, args...)...)
+				}
 				switch name {
 				case "SetExpiresAt":
 					s.cells["&"+recv+".expiresAt"] = args[0]
@@ -219,6 +223,15 @@ func (ps *PathSum) call(s *psState, f *psFrame, x *ssa.Call) ([]*psOutcome, bool
 	}
 	res := ps.sym("user:" + strings.TrimPrefix(name, "param:") + "#")
 	ps.emit(s, f, pos, "UserCall", append([]string{strings.TrimPrefix(name, "param:"), res}, args...)...)
+	if strings.TrimPrefix(name, "param:") == "evictNode" {
+		// the eviction callback updates the policy's counters and links: re-read them afterwards
+		s.cells["&epoch:param:p"] = ps.sym("e")
+		for k := range s.cells {
+			if strings.HasPrefix(k, "&param:p.") {
+				delete(s.cells, k)
+			}
+		}
+	}
 	ps.bindResults(s, f, x, res)
 	return ps.maybePanic(s, f, x, pos)
 }
@@ -341,6 +354,25 @@ func (ps *PathSum) callStatic(s *psState, f *psFrame, x ssa.Instruction, callee 
 	case o == origin(r.nodeToEntry):
 		bind("Entry(" + args[1] + "," + args[2] + ")")
 		return nil
+	case o.Name() == "Equals" && o.Pkg != nil && strings.HasSuffix(o.Pkg.Pkg.Path(), "/generated/node") && len(args) == 2:
+		// node.Equals(a, b): nil-aware pointer identity
+		switch {
+		case isZeroTerm(args[1]) && isZeroTerm(args[0]):
+			bind("true")
+		case isZeroTerm(args[1]):
+			bind("IsNil(" + args[0] + ")")
+		case isZeroTerm(args[0]):
+			bind("IsNil(" + args[1] + ")")
+		case args[0] == args[1]:
+			bind("true")
+		default:
+			a, b := args[0], args[1]
+			if a > b {
+				a, b = b, a
+			}
+			bind("PtrEq(AsPointer(" + a + "),AsPointer(" + b + "))")
+		}
+		return nil
 	case r.satAdd != nil && o == origin(r.satAdd):
 		bind("satadd(" + args[0] + "," + args[1] + ")")
 		return nil
@@ -431,7 +463,7 @@ func (ps *PathSum) callStatic(s *psState, f *psFrame, x ssa.Instruction, callee 
 		return nil
 	}
 	inModule := strings.HasPrefix(pkg, modPath)
-	if inModule && len(o.Blocks) > 0 && f.depth < ps.maxDepth && !ps.noInline[o] && (pkg == modPath || pkg == modPath+"/internal/xmath") {
+	if inModule && len(o.Blocks) > 0 && f.depth < ps.maxDepth && !ps.noInline[o] && (pkg == modPath || pkg == modPath+"/internal/xmath" || ps.inlinePkgs[pkg]) {
 		if o.Name() == "NowNano" {
 			t := ps.sym("statnow")
 			bind(t)
